@@ -43,8 +43,11 @@ class Dev:
     """Deviation switches for one evaluation of the model."""
 
     def __init__(self, waiver=False, fmt_unknown=True, curated=None, formats=("uuid", "date-time"),
-                 nested_bool_conflation=False, custom=None, mult_disputed=True):
+                 nested_bool_conflation=False, custom=None, mult_disputed=True, ecma=False):
         self.waiver = waiver
+        # patterns read as ECMA 262 (Draft 6) instead of Python's `re` - used by C01 only: the other checks
+        # compare statham with statham-made images, where the dialect cancels out
+        self.ecma = ecma
         # verdict for a multipleOf on which binary floating point, exact arithmetic on the doubles and decimal
         # arithmetic on the shortest representation do not all agree (Draft 6 is silent on precision)
         self.mult_disputed = mult_disputed
@@ -59,6 +62,64 @@ class Dev:
         self.nested_bool_conflation = nested_bool_conflation
         self.used_waiver = False
         self.used_fmt_unknown = False
+
+
+_ECMA_CACHE = {}
+
+
+def ecma_pattern(pattern):
+    """The Python regex with the meaning ECMA 262 (the dialect Draft 6 prescribes) gives to `pattern`, for
+    the constructs on which the two dialects differ and which the generators use: `$` (ECMA: end of input
+    only; Python: also before a trailing newline), `\\d` / `\\w` (ECMA: ASCII only) and `.` (ECMA: no line
+    terminator at all; Python: anything but \\n).  Escapes and character classes are respected."""
+    if pattern in _ECMA_CACHE:
+        return _ECMA_CACHE[pattern]
+    out = []
+    idx, in_class = 0, False
+    while idx < len(pattern):
+        char = pattern[idx]
+        if char == "\\" and idx + 1 < len(pattern):
+            nxt = pattern[idx + 1]
+            if nxt == "d":
+                out.append("0-9" if in_class else "[0-9]")
+            elif nxt == "w":
+                out.append("A-Za-z0-9_" if in_class else "[A-Za-z0-9_]")
+            elif nxt == "D" and not in_class:
+                out.append("[^0-9]")
+            elif nxt == "W" and not in_class:
+                out.append("[^A-Za-z0-9_]")
+            else:
+                out.append(char + nxt)
+            idx += 2
+            continue
+        if in_class:
+            if char == "]":
+                in_class = False
+            out.append(char)
+        elif char == "[":
+            in_class = True
+            out.append(char)
+            if idx + 1 < len(pattern) and pattern[idx + 1] == "^":
+                out.append("^")
+                idx += 1
+            if idx + 1 < len(pattern) and pattern[idx + 1] == "]":
+                out.append("\\]")
+                idx += 1
+        elif char == "$":
+            out.append("\\Z")
+        elif char == ".":
+            out.append("[^\\n\\r\u2028\u2029]")
+        else:
+            out.append(char)
+        idx += 1
+    _ECMA_CACHE[pattern] = "".join(out)
+    return _ECMA_CACHE[pattern]
+
+
+def pattern_search(pattern, string, dev):
+    if getattr(dev, "ecma", False):
+        return re.search(ecma_pattern(pattern), string)
+    return re.search(pattern, string)
 
 
 def multiple_readings(value, multiple):
@@ -206,7 +267,7 @@ def valid(schema, value, root=None, dev=None, depth=0):
             return False
         if "minLength" in schema and len(value) < schema["minLength"]:
             return False
-        if "pattern" in schema and not re.search(schema["pattern"], value):
+        if "pattern" in schema and not pattern_search(schema["pattern"], value, dev):
             return False
         fmt = schema.get("format")
         if isinstance(fmt, str) and fmt in dev.custom:
@@ -285,7 +346,7 @@ def valid(schema, value, root=None, dev=None, depth=0):
                 if not valid(props[key], sub_value, root, dev, depth + 1):
                     return False
             for pattern, sub_schema in patterns.items():
-                if re.search(pattern, key):
+                if pattern_search(pattern, key, dev):
                     matched = True
                     if not valid(sub_schema, sub_value, root, dev, depth + 1):
                         return False
